@@ -46,6 +46,13 @@ func CompareVals(a []Value, b []Value) int {
 			// b is a proper prefix of a
 			return 1
 		}
+		if fa, fb := v.Format(), b[i].Format(); fa != fb {
+			// members of a union: values of different types are ordered by type
+			if fa < fb {
+				return -1
+			}
+			return 1
+		}
 		c := v.(Comparable).Compare(b[i].(Comparable))
 		if c < 0 {
 			return c
